@@ -17,6 +17,7 @@ import (
 	"encoding/binary"
 
 	"github.com/cuteLittleDevil/go-jt808/attachment"
+	"github.com/cuteLittleDevil/go-jt808/protocol/jt808"
 	"github.com/cuteLittleDevil/go-jt808/protocol/model"
 	"github.com/cuteLittleDevil/go-jt808/shared/consts"
 )
@@ -389,6 +390,13 @@ type missCase struct {
 	Size   int   `json:"size"`
 	Chunks []seg `json:"chunks"`
 	Segs   []seg `json:"segs"`
+	// the report on the wire (0x9212 body built the way the handlers build it) and read back by the real parser,
+	// with a fresh receiver and with one that read the previous report (only when the count fits its byte)
+	HasWire bool  `json:"haswire"`
+	Name    B     `json:"name"`
+	Wire    B     `json:"wire"`
+	Parsed  []seg `json:"parsed"`
+	Parsed2 []seg `json:"parsed2"`
 }
 
 func init() {
@@ -469,13 +477,76 @@ func check9212(run aRun) (string, string) {
 	return "", ""
 }
 
+// missReport: the real range computation for a chunk set, its 0x9212 encoding, and the encoding read back
+func missReport(i, size int, chunks []seg, reused9212 *model.P0x9212) missCase {
+	p := &attachment.Package{FileSize: uint32(size), OffsetRecord: map[int]int{}, OffsetDataRecord: map[int][]byte{}}
+	for _, ch := range chunks {
+		p.OffsetRecord[ch.Off] = ch.Len
+		p.CurrentSize += uint32(ch.Len)
+	}
+	got := []seg{}
+	for _, s := range p.StatisticalMissSegments() {
+		got = append(got, seg{int(s.DataOffset), int(s.DataLength)})
+	}
+	mc := missCase{Size: size, Chunks: chunks, Segs: got, Name: B{}, Wire: B{}, Parsed: []seg{}, Parsed2: []seg{}}
+	if len(got) <= 255 {
+		mc.HasWire = true
+		mc.Name = B(fmt.Sprintf("f%d.bin", i))
+		rep := model.P0x9212{FileNameLen: byte(len(mc.Name)), FileName: string(mc.Name), FileType: 2}
+		if len(got) > 0 {
+			rep.UploadResult = 1
+			rep.RetransmitPacketNumber = byte(len(got))
+			rep.P0x9212RetransmitPacketList = p.StatisticalMissSegments()
+		}
+		if pn := protect(func() { mc.Wire = rep.Encode() }); pn != "" {
+			mc.Wire = B{}
+		}
+		readBack := func(recv *model.P0x9212) []seg {
+			segs := []seg{}
+			m := jt808.NewJTMessage()
+			m.Body = exact(mc.Wire)
+			var err error
+			if pn := protect(func() { err = recv.Parse(m) }); pn != "" || err != nil {
+				return []seg{{-1, -1}}
+			}
+			for _, s := range recv.P0x9212RetransmitPacketList {
+				segs = append(segs, seg{int(s.DataOffset), int(s.DataLength)})
+			}
+			return segs
+		}
+		mc.Parsed = readBack(&model.P0x9212{})
+		mc.Parsed2 = readBack(reused9212)
+	}
+	return mc
+}
+
 func init() {
 	// I->S for C16: large random chunk sets through the real range computation
+	// c16-regen <events> <out>: recompute recorded reports from their chunk sets on the current tree (replay of a Trace_Miss rejection)
+	cmds["c16-regen"] = func(a []string) {
+		out := newND(a[1])
+		defer out.close()
+		reused := &model.P0x9212{}
+		m := jt808.NewJTMessage()
+		m.Body = []byte{1, 'x', 2, 1, 2, 0, 0, 0, 1, 0, 0, 0, 2, 0, 0, 0, 9, 0, 0, 0, 3} // the receiver has read a two-range report before
+		_ = reused.Parse(m)
+		if err := readND(a[0], func(i int, raw []byte) error {
+			var c missCase
+			if err := jsonUnmarshal(raw, &c); err != nil {
+				return err
+			}
+			out.put(missReport(i, c.Size, c.Chunks, reused))
+			return nil
+		}); err != nil {
+			die(err)
+		}
+	}
 	cmds["c16-gen"] = func(a []string) {
 		n := atoi(a[0])
 		out := newND(a[1])
 		defer out.close()
 		r := newRand(1616)
+		reused9212 := &model.P0x9212{}
 		for i := 0; i < n; i++ {
 			gaps := []int{1, 5, 126, 127, 128, 129, 200, 254, 255, 256, 300}[r.Intn(11)]
 			// alternate gap / chunk; random small widths; optional chunk at 0 and at the end
@@ -500,17 +571,7 @@ func init() {
 					pos += w2
 				}
 			}
-			size := pos
-			p := &attachment.Package{FileSize: uint32(size), OffsetRecord: map[int]int{}, OffsetDataRecord: map[int][]byte{}}
-			for _, ch := range chunks {
-				p.OffsetRecord[ch.Off] = ch.Len
-				p.CurrentSize += uint32(ch.Len)
-			}
-			got := []seg{}
-			for _, s := range p.StatisticalMissSegments() {
-				got = append(got, seg{int(s.DataOffset), int(s.DataLength)})
-			}
-			out.put(missCase{Size: size, Chunks: chunks, Segs: got})
+			out.put(missReport(i, pos, chunks, reused9212))
 		}
 	}
 }
